@@ -11,8 +11,9 @@ use quote::ToTokens;
 pub fn contracts() -> Vec<Contract> {
     vec![
         Contract { name: "cx_fn_grammar", function: "lib.rs::invoke -> entrait_fn::entrait_for_single_fn and everything below it", props: &["C01", "C02", "C03", "C04", "C05", "C11", "C12", "C13", "C18", "C19"], run: cx_fn },
-        Contract { name: "cx_mod_grammar", function: "lib.rs::invoke -> entrait_fn::{entrait_for_mod, entrait_for_impl_block} and everything below them", props: &["C01", "C02", "C04", "C07", "C08", "C12", "C13", "C19"], run: cx_mod },
+        Contract { name: "cx_mod_grammar", function: "lib.rs::invoke -> entrait_fn::{entrait_for_mod, entrait_for_impl_block} and everything below them", props: &["C01", "C02", "C03", "C04", "C07", "C08", "C12", "C13", "C19"], run: cx_mod },
         Contract { name: "c07_borrow_from_deps", function: "signature/converter.rs::generate_params / gen_impl_receiver, entrait_trait/mod.rs::gen_impl_trait (delegation-target trait)", props: &["C07", "C03"], run: c07_borrow },
+        Contract { name: "c03_module_generic_names", function: "analyze_generics.rs::GenericsAnalyzer (one analyzer shared by all functions of a module / impl block)", props: &["C03"], run: c03_generic_names },
         Contract { name: "cx_trait_grammar", function: "lib.rs::invoke -> entrait_trait::output_tokens and everything below it", props: &["C06", "C07", "C09", "C12", "C13", "C18", "C19"], run: cx_trait },
     ]
 }
@@ -372,7 +373,7 @@ fn gcd(a: u64, b: u64) -> u64 {
 }
 
 fn cx_trait(ctx: &Ctx, r: &mut Report) {
-    let vis = ["", "pub", "pub(crate)"];
+    let vis = ["", "pub", "pub(crate)", "pub(super)", "pub(in super::a)"];
     let tattrs = ["", "#[doc = \"t\"]", "#[async_trait]", "#[doc = \"t\"] #[allow(dead_code)] #[async_trait::async_trait]"];
     let generics: [(&str, &str); 4] = [("", "Tr"), ("<T>", "Tr<T>"), ("<'x, T: 'x>", "Tr<'x,T>"), ("<const N: usize, U>", "Tr<N,U>")];
     let supers = ["", ": Sized", ": Send + Sync"];
@@ -665,6 +666,8 @@ fn member(kind: usize, n: usize, in_impl: bool) -> Member {
         7 => mk(format!("{}async fn f{}(deps: &impl {}, a: u8, b: u8) -> u8 {{ a }}", v, n, a), &[a.clone()], false, true, 2, &[]),
         12 => mk(format!("{}fn f{}<D: {}>(deps: &D, k: u8) where D: B<u8> {{}}", v, n, a), &[a.clone(), "B < u8 >".into()], false, false, 1, &[]),
         13 => mk(format!("{}async fn f{}<'x, D>(deps: &'x D, s: &'x str) -> &'x str where D: {} + Sq, D: B<u8> {{ s }}", v, n, a), &[a.clone(), "Sq".into(), "B < u8 >".into()], false, true, 1, &[]),
+        14 => mk(format!("{}async unsafe fn f{}(deps: &impl {}, p: *const u8) -> u8 {{ *p }}", v, n, a), &[a.clone()], false, true, 1, &[]),
+        15 => mk(format!("{}const unsafe extern \"C\" fn f{}(deps: &impl {}) {{}}", v, n, a), &[a.clone()], false, false, 0, &[]),
         // not part of the trait
         8 => Member { text: format!("fn hidden{}(deps: &impl Hidden) {{}}", n), method: None },
         9 => Member { text: format!("struct S{};", n), method: None },
@@ -677,12 +680,12 @@ fn cx_mod(ctx: &Ctx, r: &mut Report) {
     let max = if ctx.tier == Tier::Thorough { 4 } else { 3 };
     // (attribute for a module, attribute for an impl block, mockable, ?Send)
     let opts: [(&str, bool, bool); 4] = [("", false, false), ("mockall", true, false), ("?Send", false, true), ("unimock, mock_api = TrMock, ?Send", true, true)];
-    r.domain = "module and impl-block bodies: sequences of members from 14 kinds (10 function shapes differing in dependency form, bounds, by-value / async / unsafe, generics and patterns; 4 non-function kinds) x {mod, impl block, impl block with ref, with dyn} x 4 option sets x 3 trait visibilities".into();
+    r.domain = "module and impl-block bodies: sequences of members from 16 kinds (12 function shapes differing in dependency form, bounds, by-value / async / unsafe, generics and patterns; 4 non-function kinds) x {mod, impl block, impl block with ref, with dyn} x 4 option sets x 3 trait visibilities".into();
     r.bound = format!("all sequences of length 1..{} (impl blocks: function kinds other than by-value only); every third (mode, options, visibility) combination per body, rotating", max);
     r.exhaustive = false;
     let mut bodies: Vec<Vec<usize>> = vec![];
     for n in 1..=max {
-        bodies.extend(sequences(14, n));
+        bodies.extend(sequences(16, n));
     }
     let mut rot = seed() as usize;
     for body in bodies {
@@ -1010,5 +1013,69 @@ fn check_impl_param(r: &mut Report, input: &str, sig: &syn::Signature, dynamic: 
     let _ = ret;
     if dynamic && lt.is_none() && elided {
         r.fail("dyn-elided-borrow-from-deps", input, "the result borrows from the dependency through lifetime elision, but next to `&self` the elided lifetime of the generated signature is that of the implementor object".into());
+    }
+}
+
+/// C03: the expansion compiles - a generic parameter list must not declare a name twice (E0403). Type and const
+/// parameters of every function of a module are lifted onto the one generated trait.
+fn c03_generic_names(_ctx: &Ctx, r: &mut Report) {
+    r.domain = "modules and impl blocks with two or three generic functions whose type / const parameters have {distinct, equal} names, {equal, different} bounds".into();
+    r.bound = "exhaustive over the listed shapes".into();
+    let lists: [&[&str]; 6] = [&["T: Clone", "U: Clone"], &["T: Clone", "T: Clone"], &["T: Clone", "T: Default"], &["T", "U", "T"], &["const N: usize", "const N: usize"], &["T, U", "V, const N: usize"]];
+    for gl in lists {
+        for in_impl in [false, true] {
+            let fns: Vec<String> = gl
+                .iter()
+                .enumerate()
+                .map(|(i, g)| {
+                    let first = g.split(|c| c == ':' || c == ',').next().unwrap().trim().trim_start_matches("const ").to_string();
+                    let arg = if g.starts_with("const") { format!("a: [u8; {}]", first) } else { format!("a: {}", first) };
+                    format!("{}fn f{}<{}>(deps: &impl A{}, {}) {{}}", if in_impl { "" } else { "pub " }, i, g, i, arg)
+                })
+                .collect();
+            let (attr, item) = if in_impl { ("", format!("impl TrImpl for X {{ {} }}", fns.join(" "))) } else { ("Tr", format!("mod m {{ {} }}", fns.join(" "))) };
+            let input = format!("#[entrait({})] {}", attr, item);
+            r.guarded(&input, |r| {
+                let out = expand(Variant::Entrait, attr, &item);
+                if let Some(e) = compile_error_of(&out) {
+                    r.fail("unexpected-error", &input, e);
+                    return;
+                }
+                let file = match parse_file(&out) {
+                    Ok(f) => f,
+                    Err(e) => {
+                        r.fail("unparsable", &input, e);
+                        return;
+                    }
+                };
+                let mut lists: Vec<(String, &syn::Generics)> = vec![];
+                let items: &Vec<syn::Item> = mod_items(&file.items, "m").unwrap_or(&file.items);
+                for it in items {
+                    match it {
+                        syn::Item::Trait(t) => lists.push((format!("trait {}", t.ident), &t.generics)),
+                        syn::Item::Impl(i) if i.trait_.is_some() => lists.push(("generated impl".to_string(), &i.generics)),
+                        _ => {}
+                    }
+                }
+                for (what, g) in lists {
+                    let names: Vec<String> = g
+                        .params
+                        .iter()
+                        .map(|p| match p {
+                            syn::GenericParam::Type(t) => t.ident.to_string(),
+                            syn::GenericParam::Const(c) => c.ident.to_string(),
+                            syn::GenericParam::Lifetime(l) => l.lifetime.to_string(),
+                        })
+                        .collect();
+                    let mut seen = std::collections::BTreeSet::new();
+                    for n in &names {
+                        if !seen.insert(n.clone()) {
+                            r.fail("module-generic-name-clash", &input, format!("{} declares the generic parameter `{}` twice: <{}> (E0403)", what, n, names.join(", ")));
+                            break;
+                        }
+                    }
+                }
+            });
+        }
     }
 }
